@@ -116,7 +116,7 @@ pub fn judge(kind: MergeKind, stable: bool, model: &BTreeMap<Vec<u8>, Vec<Vec<u8
     for (k, v) in out {
         let vals = &model[k];
         let exact = kind.apply(k, vals);
-        let commutative = matches!(kind, MergeKind::Min | MergeKind::Max | MergeKind::Sum);
+        let commutative = matches!(kind, MergeKind::Min | MergeKind::Max | MergeKind::Sum | MergeKind::KeyedMinMax);
         if stable || commutative {
             if v != &exact {
                 return Err(("merged-value-wrong".into(), format!("key {}: {} values inserted, expected merge {} got {}", hex(k), vals.len(), hex(&exact), hex(v))));
@@ -216,7 +216,7 @@ fn check_case(ctx: &Ctx, stream: &str, idx: u64, scfg: &SCfg, kind: MergeKind, s
         }
     }
     // the three routes agree (exactly when the value is determined; always on keys)
-    let deterministic = scfg.stable || matches!(kind, MergeKind::Min | MergeKind::Max | MergeKind::Sum);
+    let deterministic = scfg.stable || matches!(kind, MergeKind::Min | MergeKind::Max | MergeKind::Sum | MergeKind::KeyedMinMax);
     for w in outputs.windows(2) {
         let same = if deterministic { w[0].1 == w[1].1 } else { w[0].1.iter().map(|e| &e.0).eq(w[1].1.iter().map(|e| &e.0)) };
         if !same {
@@ -238,7 +238,7 @@ fn check_case(ctx: &Ctx, stream: &str, idx: u64, scfg: &SCfg, kind: MergeKind, s
 
 pub fn pick_kind(rng: &mut Rng, stable: bool) -> MergeKind {
     let _ = stable;
-    *rng.pick(&[MergeKind::Concat, MergeKind::Concat, MergeKind::Concat, MergeKind::First, MergeKind::Last, MergeKind::Min, MergeKind::Max, MergeKind::Sum])
+    *rng.pick(&[MergeKind::Concat, MergeKind::Concat, MergeKind::Concat, MergeKind::First, MergeKind::Last, MergeKind::Min, MergeKind::Max, MergeKind::Sum, MergeKind::KeyedMinMax, MergeKind::KeyedMinMax])
 }
 
 pub fn run(ctx: &Ctx, part: &str) -> i32 {
